@@ -1,5 +1,137 @@
-import Smooth.Model.Surface
+/-
+C13 — The printed form echoes the object.
+
+`render e` is the token stream of `repr(e)`: the constructor call that builds `e`.  `parseExpr` is
+`eval` restricted to the public constructors.  What a reader of the printed text can return at best is
+`e.fresh`: the same tree with the per-object memo flags (which are not printed) reset; `==` does not
+look at them.
+
+Side conditions: NONE on the expression (no well-formedness is needed: `NthPower(…, n=0)` or a
+base `-1` print and read back just the same) and NONE on what follows the printed form in the token
+stream (the parser never looks past the closing parenthesis).  The only hypothesis anywhere is
+reflexivity of `==` on the stored numbers where the statement is about `==` (false for a float NaN,
+true over ℝ).
+
+The parser also accepts the default-base spellings `Exponential(u)` / `Logarithm(u)` (base `e`);
+`render` never produces them, so they play no role in the round trip (`parse_default_base`).
+-/
+import Smooth.Proofs.Print
+import Smooth.Real.Instance
+
 namespace Smooth
-/-- placeholder while the property file is being written -/
-theorem C13_placeholder : (1 : Nat) = 1 := rfl
+open Expr
+variable {α : Type}
+
+/-- **C13, round trip.**  Evaluating the printed text of `e`, followed by any tokens `rest`, yields
+the flag-free copy of `e` and leaves exactly `rest`; some fuel (nesting budget) suffices. -/
+theorem parse_render (N : Num α) (e : Expr α) (rest : List (Tok α)) :
+    ∃ fuel, parseExpr N fuel (render e ++ rest) = some (e.fresh, rest) :=
+  ⟨_, parse_render_length N e rest⟩
+
+/-- … namely every fuel from the number of nodes on, … -/
+theorem parse_render_fuel (N : Num α) (e : Expr α) (rest : List (Tok α)) (k : Nat)
+    (hk : size e ≤ k) : parseExpr N k (render e ++ rest) = some (e.fresh, rest) :=
+  parse_render_of_size_le N e k rest hk
+
+/-- … in particular the fuel the driver uses, on the printed text alone. -/
+theorem parse_render_driver_fuel (N : Num α) (e : Expr α) :
+    parseExpr N ((render e).length + 1) (render e) = some (e.fresh, []) :=
+  parse_render_driver N e
+
+/-- Fuel only bounds the nesting: an answer never changes when more is given. -/
+theorem parse_fuel_mono (N : Num α) (k : Nat) (ts : List (Tok α)) (r : Expr α × List (Tok α))
+    (h : parseExpr N k ts = some r) : parseExpr N (k + 1) ts = some r :=
+  parse_mono N k ts r h
+
+theorem parse_fuel_mono_le (N : Num α) {k k' : Nat} (hk : k ≤ k') (ts : List (Tok α))
+    (r : Expr α × List (Tok α)) (h : parseExpr N k ts = some r) : parseExpr N k' ts = some r :=
+  parse_mono_le N hk ts r h
+
+/-- **C13, injectivity.**  Two expressions that print identically differ at most in flags;
+i.e. expressions that differ in anything but flags print differently.  No hypothesis. -/
+theorem render_injective (a b : Expr α) (h : render a = render b) : a.fresh = b.fresh :=
+  render_injective_fresh a b h
+
+/-- and conversely flags are not printed: printing identically *is* differing at most in flags -/
+theorem render_eq_iff (a b : Expr α) : render a = render b ↔ a.fresh = b.fresh :=
+  render_eq_iff_fresh a b
+
+/-- stronger: no printed form is a proper prefix of another one -/
+theorem render_prefix_free' (a b : Expr α) (r1 r2 : List (Tok α))
+    (h : render a ++ r1 = render b ++ r2) : a.fresh = b.fresh ∧ r1 = r2 :=
+  render_prefix_free a b r1 r2 h
+
+/-- **C13 in terms of `==`.**  The object read back is equal (`==`, either way round) to the
+original, whenever `==` is reflexive on the stored numbers. -/
+theorem reparsed_eq_original (N : Num α) (hrefl : ∀ v, N.eq v v = true) (e : Expr α) :
+    ∃ e', parseExpr N ((render e).length + 1) (render e) = some (e', []) ∧
+      beq N e' e = true ∧ beq N e e' = true :=
+  ⟨e.fresh, parse_render_driver N e, beq_fresh_self N hrefl e⟩
+
+/-- Two unequal expressions never print identically. -/
+theorem unequal_print_differently (N : Num α) (hrefl : ∀ v, N.eq v v = true) (a b : Expr α)
+    (h : beq N a b = false) : render a ≠ render b := fun hr => by
+  rw [beq_of_render_eq N hrefl a b hr] at h; cases h
+
+/-- over the reals `==` on numbers is reflexive, so both hold outright -/
+theorem realNum_eq_refl (v : ℝ) : realNum.eq v v = true := by simp
+
+theorem reparsed_eq_original_real (e : Expr ℝ) :
+    ∃ e', parseExpr realNum ((render e).length + 1) (render e) = some (e', []) ∧
+      beq realNum e' e = true ∧ beq realNum e e' = true :=
+  reparsed_eq_original realNum realNum_eq_refl e
+
+theorem unequal_print_differently_real (a b : Expr ℝ) (h : beq realNum a b = false) :
+    render a ≠ render b :=
+  unequal_print_differently realNum realNum_eq_refl a b h
+
+/-- The default-base spellings are read as base `e` (they are never printed). -/
+theorem parse_default_base (N : Num α) (u : Expr α) (k : Nat) (rest : List (Tok α))
+    (hk : size u ≤ k) :
+    parseExpr N (k + 1) ([Tok.ident "Exponential", Tok.lp] ++ render u ++ [Tok.rp] ++ rest)
+      = some (mkExp u.fresh N.e, rest) ∧
+    parseExpr N (k + 1) ([Tok.ident "Logarithm", Tok.lp] ++ render u ++ [Tok.rp] ++ rest)
+      = some (mkLog u.fresh N.e, rest) :=
+  ⟨parse_default_base_exp N u k rest hk, parse_default_base_log N u k rest hk⟩
+
+/-! ### Non-vacuity: a concrete expression whose printed form uses every kind of token
+(`ident`, `(`, `)`, `,`, `=`, string, number, integer), with non-default flags on some nodes. -/
+
+/-- `Add(NthPower(Variable('x'), n=2), Exponential(Constant(3), base=2), Multiply())` -/
+noncomputable def c13Sample : Expr ℝ :=
+  .add { red := true, id := 7 }
+    [.npow {} (.var { failed := true } "x") 2, .exp {} (.const { id := 3 } 3) 2, .mul {} []]
+
+example : render c13Sample =
+    [.ident "Add", .lp,
+      .ident "NthPower", .lp, .ident "Variable", .lp, .str "x", .rp, .comma, .ident "n", .eqs,
+        .nat 2, .rp, .comma,
+      .ident "Exponential", .lp, .ident "Constant", .lp, .num 3, .rp, .comma, .ident "base", .eqs,
+        .num 2, .rp, .comma,
+      .ident "Multiply", .lp, .rp,
+      .rp] := by
+  simp [c13Sample, render, renderList, joinComma]
+
+/-- the round trip on it, with the driver's fuel (here 31), returns the flag-free tree … -/
+example : parseExpr realNum 31 (render c13Sample)
+    = some (mkAdd [mkNPow (mkVar "x") 2, mkExp (mkConst 3) 2, mkMul []], []) := by
+  have h := parse_render_driver_fuel realNum c13Sample
+  have hl : (render c13Sample).length + 1 = 31 := by
+    simp [c13Sample, render, renderList, joinComma]
+  rw [hl] at h
+  simpa [c13Sample, fresh, freshList] using h
+
+/-- … which is not the original object (flags differ) but `==` to it -/
+example : c13Sample.fresh ≠ c13Sample ∧ beq realNum c13Sample.fresh c13Sample = true :=
+  ⟨by simp [c13Sample, fresh, freshList], (beq_fresh_self realNum realNum_eq_refl _).1⟩
+
+/-- `unequal_print_differently` applies to a non-trivial pair: same shape, different `n` -/
+example : beq realNum (mkNPow (mkVar "x") 2) (mkNPow (mkVar "x") 3) = false ∧
+    render (mkNPow (mkVar "x" : Expr ℝ) 2) ≠ render (mkNPow (mkVar "x") 3) :=
+  ⟨by simp [beq], unequal_print_differently_real _ _ (by simp [beq])⟩
+
+/-- `render_injective` applies to a non-trivial pair: same tree, different flags -/
+example : render c13Sample = render c13Sample.fresh ∧ c13Sample ≠ c13Sample.fresh :=
+  ⟨(render_fresh _).symm, by simp [c13Sample, fresh, freshList]⟩
+
 end Smooth
